@@ -1,9 +1,9 @@
 SPECIFICATION Spec
-CONSTANTS N = 2
-  Walkers = {"resolve", "length", "xref", "pages", "outline", "nametree", "filters"}
-  MaxDepth = 4
+CONSTANTS N = 3
+  Walkers = {"filters"}
+  MaxDepth = 2
   MaxChain = 3
-  StackCap = 12
+  StackCap = 2
   G_SEEN = TRUE
   G_DEPTH = TRUE
   G_SCALAR = TRUE
